@@ -5,7 +5,9 @@
    dump format, its template over the generated tables, the rendered text;
    (3) the forms that text is read back with and the numbers the parser
    extracts; (4) str -> parse gives back the same date representation, UTC
-   offset and (==) time fields, and str is a fixpoint; (5) custom formats. *)
+   offset and (==) time fields, and str is a fixpoint; (5)-(8) custom formats
+   "complete date T hh[:]mm[:]ss zone": the zone Z, a literal numeric zone, the
+   point's own zone; dumped, parsed back, compared with the original. *)
 From Coq Require Import ZArith NArith Nnat QArith Qround Lqa List Bool String Ascii Lia.
 From Iso Require Import Proofs.Tac Spec.Cal Spec.Instant Model.Num Model.Helpers Model.Duration Model.TimePoint
   Model.Forms Model.Parse Model.Dump Spec.FormText Proofs.MatchSpec gen.Grammar Model.DriverText
@@ -1366,7 +1368,7 @@ Proof.
   auto.
 Qed.
 
-(* ---- part P10 (custom formats: lemmas; the end-to-end theorem is still to be assembled) ---- *)
+(* ---- part P10 (custom formats) ---- *)
 (* ------------------------------------------------------------------ *)
 (* 5. custom formats: complete date "T" time to the second "Z"         *)
 (* ------------------------------------------------------------------ *)
@@ -1430,59 +1432,6 @@ Qed.
 Lemma instant_with_date : forall md p d, date_dn md d = date_dn md (tdate p) ->
   (instant md (with_date p d) == instant md p)%Q.
 Proof. intros md p d E. unfold instant, with_date. cbn [tdate ttod tzone]. rewrite E. reflexivity. Qed.
-
-(* what a successful dump with a complete-date template, the zone Z, has rendered *)
-Lemma dump_with_custom : forall ned md p tmpl props s k xp,
-  valid_tp md p = true ->
-  mem "week_of_year" props || mem "day_of_week" props = (k =? 2) ->
-  mem "month_of_year" props || mem "day_of_month" props || mem "day_of_year" props = negb (k =? 2) ->
-  mem "century" props = true -> mem "expanded_year_digits" props = xp ->
-  dump_with ned md p tmpl props (Some (0, 0)) = DOk s ->
-  exists r, valid_tp md r = true /\ (instant md r == instant md p)%Q /\ tzone r = mkZone 0 0 /\
-            tod_kind (ttod r) = tod_kind (ttod p) /\
-            (if k =? 2 then rep_kind (tdate r) = 2 else rep_kind (tdate r) <> 2) /\
-            (if xp then (ned =? 0) = false -> Z.abs (date_year (tdate r)) <= 10 ^ (ned + 4) - 1
-             else 0 <= date_year (tdate r) <= 9999) /\
-            (xp = true -> (ned =? 0) = true -> 0 <= date_year (tdate r) <= 9999) /\
-            render md r tmpl = Some s.
-Proof.
-  intros ned md p tmpl props s k xp V F1 F2 F3 F4 D.
-  rewrite (dump_with_flags ned md p tmpl props _ _ _ _ _ F1 F2 F3 F4) in D. cbv zeta in D.
-  destruct (valid_tp_parts md p V) as (Vd & Vt & Vz).
-  assert (Q1 : exists q1, (if k =? 2
-      then if negb (negb (k =? 2))
-           then match to_week_date md (tdate p) with Some d => Some (with_date p d) | None => None end
-           else Some p
-      else if match tdate p with Wk _ _ _ => true | _ => false end && negb (k =? 2)
-           then match to_calendar_date md (tdate p) with Some d => Some (with_date p d) | None => None end
-           else Some p) = Some q1 /\ valid_tp md q1 = true /\ (instant md q1 == instant md p)%Q /\
-           tod_kind (ttod q1) = tod_kind (ttod p) /\
-           (if k =? 2 then rep_kind (tdate q1) = 2 else rep_kind (tdate q1) <> 2)).
-  { destruct (k =? 2) eqn:K; cbn [negb andb].
-    - destruct (to_week_date_ok md _ Vd) as (d' & E & V' & D' & K'). rewrite E.
-      exists (with_date p d'). split; [reflexivity|]. split.
-      { unfold valid_tp, with_date. cbn [tdate ttod tzone]. rewrite V', Vt, Vz. reflexivity. }
-      split; [apply instant_with_date; exact D'|]. split; [reflexivity|exact K'].
-    - destruct (tdate p) as [y m dd|y doy|y w dd] eqn:TD; cbn [andb].
-      + exists p. rewrite TD. repeat split; try assumption; try reflexivity. cbn. lia.
-      + exists p. rewrite TD. repeat split; try assumption; try reflexivity. cbn. lia.
-      + rewrite <- TD in *. destruct (to_calendar_date_ok md _ Vd) as (d' & E & V' & D' & K'). rewrite E.
-        exists (with_date p d'). split; [reflexivity|]. split.
-        { unfold valid_tp, with_date. cbn [tdate ttod tzone]. rewrite V', Vt, Vz. reflexivity. }
-        split; [apply instant_with_date; exact D'|]. split; [reflexivity|]. cbn [with_date tdate]. lia. }
-  destruct Q1 as (q1 & E1 & V1 & I1 & T1 & R1). rewrite E1 in D.
-  destruct (to_time_zone_spec md q1 (mkZone 0 0) V1 eq_refl) as (r & E2 & I2 & Z2 & K2 & T2 & V2).
-  rewrite E2 in D. exists r.
-  split; [exact V2|]. split; [rewrite I2; exact I1|]. split; [exact Z2|]. split; [congruence|].
-  split; [rewrite K2; exact R1|].
-  match type of D with (if ?b then _ else _) = _ => destruct b eqn:B end; [discriminate|].
-  destruct (render md r tmpl) as [s'|]; [|discriminate]. inversion D; subst s'.
-  split; [|split; [|reflexivity]].
-  - destruct xp; cbn [andb orb negb] in B.
-    + intros N0. rewrite N0 in B. cbn [andb orb negb] in B. lia.
-    + lia.
-  - intros -> N0. rewrite N0 in B. cbn [andb orb negb] in B. lia.
-Qed.
 
 (* the date the template's fields are those of *)
 Definition tgt_rel (md : mode) (k : Z) (d d' : date) : Prop :=
@@ -1585,4 +1534,715 @@ Proof.
     unfold pn_year, pn_tprop, pn_year_present, pn_trunc; date_cbn; cbn [f_parse wf_assign bindings d_month d_dom d_doy d_week d_dow];
     date_cbn; change (Z.to_nat 2) with 2%nat; change (Z.to_nat 3) with 3%nat; pad_facts;
     try (destruct (y <? 0) eqn:SG); cbn [is_sign String.eqb Ascii.eqb Bool.eqb orb andb]; close_vals.
+Qed.
+
+(* ---- part P11 (custom formats: the end-to-end theorems) ---- *)
+
+(* ---------- the point whose fields a custom format prints ---------- *)
+Definition cust_date (md : mode) (k : Z) (d : date) : option date :=
+  if k =? 2 then to_week_date md d
+  else match d with Wk _ _ _ => to_calendar_date md d | _ => Some d end.
+Definition cust_point (md : mode) (k : Z) (p : tp) (z : zone) : option tp :=
+  match cust_date md k (tdate p) with
+  | Some d => to_time_zone md (with_date p d) z
+  | None => None
+  end.
+Definition year_bad (ned : Z) (xp : bool) (y : Z) : bool :=
+  (true && (negb xp || (ned =? 0)) && negb ((0 <=? y) && (y <=? 9999))) ||
+  (xp && negb (Z.abs y <=? 10 ^ (ned + 4) - 1)).
+
+Lemma dump_with_cust : forall ned md p tmpl props h m k xp,
+  mem "week_of_year" props || mem "day_of_week" props = (k =? 2) ->
+  mem "month_of_year" props || mem "day_of_month" props || mem "day_of_year" props = negb (k =? 2) ->
+  mem "century" props = true -> mem "expanded_year_digits" props = xp ->
+  dump_with ned md p tmpl props (Some (h, m)) =
+  match cust_point md k p (mkZone h m) with
+  | None => DErr
+  | Some r => if year_bad ned xp (date_year (tdate r)) then DBounds
+              else match render md r tmpl with Some s => DOk s | None => DErr end
+  end.
+Proof.
+  intros ned md p tmpl props h m k xp F1 F2 F3 F4.
+  rewrite (dump_with_flags ned md p tmpl props _ _ _ _ _ F1 F2 F3 F4). cbv zeta.
+  unfold cust_point, cust_date, year_bad. destruct p as [d t z]. cbn [tdate].
+  destruct (k =? 2); cbn [negb andb].
+  - destruct (to_week_date md d); reflexivity.
+  - destruct d; cbn [andb]; try reflexivity. destruct (to_calendar_date md _); reflexivity.
+Qed.
+
+Lemma cust_date_spec : forall md k d, valid_date md d = true ->
+  exists d', cust_date md k d = Some d' /\ valid_date md d' = true /\ date_dn md d' = date_dn md d /\
+             (if k =? 2 then rep_kind d' = 2 else rep_kind d' <> 2).
+Proof.
+  intros md k d Vd. unfold cust_date. destruct (k =? 2) eqn:K.
+  - destruct (to_week_date_ok md _ Vd) as (d' & E & V' & D' & K'). exists d'. auto.
+  - destruct d as [y m dd|y doy|y w dd].
+    + eexists. split; [reflexivity|]. repeat split; try assumption. cbn. lia.
+    + eexists. split; [reflexivity|]. repeat split; try assumption. cbn. lia.
+    + destruct (to_calendar_date_ok md _ Vd) as (d' & E & V' & D' & K'). exists d'.
+      repeat split; try assumption. lia.
+Qed.
+Lemma cust_point_spec : forall md k p z, valid_tp md p = true -> valid_zone z = true ->
+  exists r, cust_point md k p z = Some r /\ valid_tp md r = true /\ (instant md r == instant md p)%Q /\
+            tzone r = z /\ tod_kind (ttod r) = tod_kind (ttod p) /\
+            (if k =? 2 then rep_kind (tdate r) = 2 else rep_kind (tdate r) <> 2).
+Proof.
+  intros md k p z V VZ. destruct (valid_tp_parts md p V) as (Vd & Vt & Vz).
+  destruct (cust_date_spec md k (tdate p) Vd) as (d' & E1 & V1 & D1 & R1). unfold cust_point. rewrite E1.
+  assert (Vq : valid_tp md (with_date p d') = true).
+  { unfold valid_tp, with_date. cbn [tdate ttod tzone]. rewrite V1, Vt, Vz. reflexivity. }
+  destruct (to_time_zone_spec md (with_date p d') z Vq VZ) as (r & E2 & I2 & Z2 & K2 & T2 & V2).
+  exists r. split; [exact E2|]. split; [exact V2|].
+  split; [rewrite I2; apply instant_with_date; exact D1|]. split; [exact Z2|].
+  split; [exact T2|]. rewrite K2. exact R1.
+Qed.
+
+(* the dumper's bounds test on the printed year is year_ok *)
+Lemma cust_cases_facts : forall ned ext xp k, In (ned, ext, xp, k) cust_cases ->
+  In ned [0; 2; 3] /\ In k [0; 1; 2] /\ (xp = true -> In ned [2; 3]).
+Proof.
+  intros ned ext xp k C. unfold cust_cases in C. cbn in C.
+  in_cases C; (split; [cbn; tauto|]); (split; [cbn; tauto|]); intros X; try discriminate X; cbn; tauto.
+Qed.
+Lemma year_bad_ok : forall ned xp y, (xp = true -> In ned [2; 3]) ->
+  year_bad ned xp y = false <-> year_ok (if xp then ned else 0) y.
+Proof.
+  intros ned xp y H. unfold year_bad, year_ok. destruct xp.
+  - destruct (H eq_refl) as [<-|[<-|[]]]; cbn [Z.eqb negb andb orb];
+      [change (10 ^ (2 + 4)) with 1000000; change (10 ^ (4 + 2)) with 1000000
+      |change (10 ^ (3 + 4)) with 10000000; change (10 ^ (4 + 3)) with 10000000]; lia.
+  - cbn [Z.eqb negb andb orb]. lia.
+Qed.
+
+(* ---------- whole seconds survive the change of zone ---------- *)
+Definition hms_whole (t : tod) : bool := match t with HMS _ _ s => qis_int s | _ => false end.
+Lemma hms_whole_instant : forall md r p, valid_tp md r = true -> valid_tp md p = true ->
+  tod_kind (ttod r) = tod_kind (ttod p) -> (instant md r == instant md p)%Q ->
+  hms_whole (ttod p) = true -> hms_whole (ttod r) = true.
+Proof.
+  intros md [dr tr zr] [dp tp_ zp] Vr Vp K I W. cbn [ttod] in *.
+  destruct (valid_tp_parts md _ Vr) as (_ & Tr & _). destruct (valid_tp_parts md _ Vp) as (_ & Tp & _).
+  cbn [ttod] in *.
+  destruct tp_ as [h m s| |]; try discriminate W. destruct tr as [h' m' s'| |]; try discriminate K.
+  cbn [hms_whole] in *. unfold valid_tod in Tr, Tp.
+  apply andb_true_iff in Tr. destruct Tr as [Tr _]. apply andb_true_iff in Tr. destruct Tr as [Ih' Im'].
+  apply andb_true_iff in Tp. destruct Tp as [Tp _]. apply andb_true_iff in Tp. destruct Tp as [Ih Im].
+  apply qis_int_iff in Ih, Im, Ih', Im', W. apply qis_int_iff.
+  unfold instant in I. cbn [tdate ttod tzone tod_secs] in I. unfold qz in I.
+  apply (isint_eq (inject_Z (86400 * date_dn md dp) + (h * inject_Z 3600 + m * inject_Z 60 + s) - inject_Z (zone_secs zp)
+                   - inject_Z (86400 * date_dn md dr) - h' * inject_Z 3600 - m' * inject_Z 60 + inject_Z (zone_secs zr))%Q).
+  - lra.
+  - repeat first [apply isint_sub | apply isint_add | apply isint_mul | apply isint_Z | assumption].
+Qed.
+Lemma fits6_int : forall x, qis_int x = true -> fits6 x = true.
+Proof.
+  intros x H. unfold fits6. apply qis_int_iff in H. apply qis_int_iff.
+  apply isint_mul; [exact H|exact (isint_Z 1000000)].
+Qed.
+
+(* ---------- the time of day, basic or extended ---------- *)
+Ltac ctime_cbn := cbn [CT time_env F_HMS_EXT F_HMS_BASIC tod_hour
+                      wf_assign render_toks bindings f_parse f_expr f_dump fld lookup_env has_key String.eqb Ascii.eqb Bool.eqb
+                      nz nq ndec option_map od negb orb andb].
+Lemma render_ctime : forall md ext d h m s z,
+  render md (mkTp d (HMS h m s) z) (f_dump (CT ext)) = Some (render_toks (f_parse (CT ext)) (time_env (HMS h m s))).
+Proof.
+  intros md ext d h m s z. destruct ext; ctime_cbn; cbn [render];
+    rewrite ?pv_hour, ?pv_min_hms, ?pv_sec_hms; cbn [tod_hour]; rewrite ?sapp_nil_r; reflexivity.
+Qed.
+Lemma ctime_vals : forall ext t, valid_tod t = true -> hms_whole t = true ->
+  let te := bindings (f_parse (CT ext)) (time_env t) in
+  wf_assign (f_parse (CT ext)) (time_env t) = true /\ has_key "truncated" te = false /\
+  nq te "hour_of_day" = t_hour t /\ ndec te "hour_of_day_decimal" = t_hdec t /\
+  nq te "minute_of_hour" = t_min t /\ ndec te "minute_of_hour_decimal" = t_mdec t /\
+  nq te "second_of_minute" = t_sec t /\ ndec te "second_of_minute_decimal" = t_sdec t.
+Proof.
+  intros ext t V W te. subst te. pose proof (valid_tod_small t V) as S.
+  destruct t as [h m s| |]; try discriminate W. cbn [hms_whole tod_small] in *.
+  unfold t_hour, t_hdec, t_min, t_mdec, t_sec, t_sdec. rewrite W.
+  destruct S as (H0 & H1 & M0 & M1 & S0 & S1).
+  pose proof (qtrunc_small h H0 H1) as Rh. pose proof (qtrunc_small m M0 M1) as Rm. pose proof (qtrunc_small s S0 S1) as Rs.
+  destruct (pad_num_w 2 (qtrunc h) ltac:(lia) Rh) as [D1 N1]. destruct (pad_num_w 2 (qtrunc m) ltac:(lia) Rm) as [D2 N2].
+  destruct (pad_num_w 2 (qtrunc s) ltac:(lia) Rs) as [D3 N3].
+  destruct ext; ctime_cbn; rewrite D1, D2, D3, N1, N2, N3; repeat split; reflexivity.
+Qed.
+
+(* ---------- what the reflection over the thirty combinations gives for one of them ---------- *)
+Lemma cust_case : forall ned ext xp k, In (ned, ext, xp, k) cust_cases ->
+  let nedc := pcfg_ned ned in let fd := CF nedc ext xp k in let ft := CT ext in
+  let props := (f_props fd ++ f_props ft)%list in
+  contains_char "%" (cust_fmt ext xp k) = false /\
+  expression_of (date_forms_of ned) TIME_FORMS ZONE_FORMS zone_of_text (cust_fmt ext xp k) =
+    inl (Some (f_dump fd ++ [DLit "T"] ++ f_dump ft ++ [DLit "Z"], props, Some (0, 0)))%list /\
+  mem "week_of_year" props || mem "day_of_week" props = (k =? 2) /\
+  mem "month_of_year" props || mem "day_of_month" props || mem "day_of_year" props = negb (k =? 2) /\
+  mem "century" props = true /\ mem "expanded_year_digits" props = xp /\
+  triple_ok (date_forms_of nedc) TIME_FORMS ZONE_FORMS (default_cfg nedc) fd ft (Some F_Z_EXT) = true /\
+  num_keys_ok DATE_KEYS (f_parse fd) = true /\ num_keys_ok TIME_KEYS (f_parse ft) = true.
+Proof.
+  intros ned ext xp k C nedc fd ft props. pose proof cust_tables as T. rewrite forallb_forall in T.
+  specialize (T _ C). unfold cust_case_ok in T. cbv beta iota zeta in T.
+  fold nedc in T. fold fd in T. fold ft in T. fold props in T.
+  repeat match goal with X : _ && _ = true |- _ => apply andb_true_iff in X; destruct X end.
+  destruct (expression_of _ _ _ _ _) as [[[[tmpl props'] [[a b]|]]|]|e]; try discriminate.
+  destruct a; try discriminate. destruct b; try discriminate.
+  repeat match goal with X : _ && _ = true |- _ => apply andb_true_iff in X; destruct X end.
+  repeat match goal with X : Bool.eqb _ _ = true |- _ => apply eqb_prop in X end.
+  match goal with X : dtoks_eqb _ _ = true |- _ => apply dtoks_eqb_eq in X; subst tmpl end.
+  match goal with X : strs_eqb _ _ = true |- _ => apply strs_eqb_eq in X; subst props' end.
+  match goal with X : negb _ = true |- _ => apply negb_true_iff in X end.
+  repeat split; assumption.
+Qed.
+
+Definition cust_tmpl (ned : Z) (ext xp : bool) (k : Z) : list dtok :=
+  (f_dump (CF (pcfg_ned ned) ext xp k) ++ [DLit "T"] ++ f_dump (CT ext) ++ [DLit "Z"])%list.
+
+Theorem do_dump_custom : forall md ned ext xp k p, In (ned, ext, xp, k) cust_cases ->
+  do_dump md ned p (cust_fmt ext xp k) =
+  match cust_point md k p (mkZone 0 0) with
+  | None => DErr
+  | Some r => if year_bad ned xp (date_year (tdate r)) then DBounds
+              else match render md r (cust_tmpl ned ext xp k) with Some s => DOk s | None => DErr end
+  end.
+Proof.
+  intros md ned ext xp k p C. destruct (cust_case ned ext xp k C) as (NP & EX & F1 & F2 & F3 & F4 & _).
+  unfold do_dump. rewrite NP. unfold dump. rewrite NP, EX.
+  apply (dump_with_cust ned md p _ _ 0 0 k xp F1 F2 F3 F4).
+Qed.
+
+(* ---------- reading the text back ---------- *)
+Lemma tgt_rel_kind : forall md k d d', tgt_rel md k d d' -> rep_kind d' = k.
+Proof. intros md k d d' T. destruct d'; cbn [tgt_rel] in T; destruct T as [-> _]; reflexivity. Qed.
+Lemma tod_secs_eq : forall a b, tod_eq a b -> (tod_secs a == tod_secs b)%Q.
+Proof.
+  intros [h m s|h m|h] [h' m' s'|h' m'|h'] E; cbn [tod_eq] in E; try contradiction; cbn [tod_secs].
+  - destruct E as (-> & -> & ->). reflexivity.
+  - destruct E as (-> & ->). reflexivity.
+  - rewrite E. reflexivity.
+Qed.
+
+(* any zone form fz whose bindings denote the zone of r *)
+Lemma custom_parse : forall md ned ext xp k fz az zn r d',
+  In (ned, ext, xp, k) cust_cases ->
+  valid_tp md r = true -> hms_whole (ttod r) = true ->
+  tgt_rel md k (tdate r) d' -> valid_date md d' = true -> date_dn md d' = date_dn md (tdate r) ->
+  year_ok (if xp then ned else 0) (date_year d') ->
+  let nedc := pcfg_ned ned in let cfg := default_cfg nedc in
+  let fd := CF nedc ext xp k in let ft := CT ext in
+  triple_ok (date_forms_of (c_ned cfg)) TIME_FORMS ZONE_FORMS cfg fd ft (Some fz) = true ->
+  num_keys_ok DATE_KEYS (f_parse fd) = true -> num_keys_ok TIME_KEYS (f_parse ft) = true ->
+  num_keys_ok ZONE_KEYS (f_parse fz) = true -> wf_assign (f_parse fz) az = true ->
+  zone_num cfg (bindings (f_parse fz) az) = POk zn -> zone_stage zn = POk (Some (tzone r)) ->
+  exists p' q,
+    parse_text md cfg (render_toks (f_parse fd) (date_env (if xp then ned else 0) d') ++ "T" ++
+                       render_toks (f_parse ft) (time_env (ttod r)) ++ render_toks (f_parse fz) az) false = POk p' /\
+    ptp_to_tp p' = Some q /\ valid_tp md q = true /\ (instant md q == instant md r)%Q /\ tzone q = tzone r.
+Proof.
+  intros md ned ext xp k fz az zn [d t z] d' C V W T Vd' DN Y nedc cfg fd ft OK K1 K2 K3 Wz ZN ZS.
+  subst fd ft nedc. cbn [tdate ttod tzone] in *.
+  destruct (valid_tp_parts md _ V) as (Vd & Vt & Vz). cbn [tdate ttod tzone] in *.
+  pose proof (valid_date_ranges md d' Vd') as R.
+  destruct (cdate_vals ned ext xp k d' C (tgt_rel_kind _ _ _ _ T) Y R) as (Wd & PY & PT & PP & Mo & Do & Oy & Wk & Dw).
+  destruct (ctime_vals ext t Vt W) as (Wt & HT & TH & THD & TM & TMD & TS & TSD).
+  assert (F6 : tod_fits6 t = true).
+  { destruct t as [h m s| |]; try discriminate W. apply fits6_int. exact W. }
+  destruct (time_stage t Vt F6) as (h1 & m1 & s1 & t' & Hh & Hm & Hs & Dh & Dm & Ds & TE).
+  set (fd := CF (pcfg_ned ned) ext xp k) in *. set (ft := CT ext) in *.
+  assert (P : parse_text md cfg (render_toks (f_parse fd) (date_env (if xp then ned else 0) d') ++ "T" ++
+                       render_toks (f_parse ft) (time_env t) ++ render_toks (f_parse fz) az) false =
+              POk (mkPtp (Some (date_year d')) (d_month d') (d_dom d') (d_doy d') (d_week d') (d_dow d')
+                         (tod_h t') (tod_m t') (tod_s t') (Some z) false "" (pn_ned cfg (bindings (f_parse fd) (date_env (if xp then ned else 0) d'))) "")).
+  { change (render_toks (f_parse fz) az) with (zo_text (Some fz) az).
+    rewrite (parse_text_num md cfg fd ft (Some fz) _ _ az false OK K1 K2 K3 Wd Wt Wz).
+    cbn [zo_bind]. rewrite ZN. cbn [pbind]. rewrite point_num_eq.
+    rewrite PY, PT, PP, Mo, Do, Oy, Wk, Dw. rewrite HT, TH, THD, TM, TMD, TS, TSD. cbn [orb].
+    rewrite construct_eq, Hh, Hm, Hs. cbn [pbind]. unfold tail.
+    rewrite ZS.
+    destruct (date_stage md d' Vd') as (CFL & DF & DC & _). rewrite CFL, DF.
+    rewrite check_bounds_eq, DC, Dh, Dm, Ds, (tod_fields_ok_valid t t' Vt TE). reflexivity. }
+  destruct (parse_text_valid md cfg _ false _ P eq_refl) as (q & Q & VQ).
+  eexists. exists q. split; [exact P|]. split; [exact Q|]. split; [exact VQ|].
+  rewrite ptp_to_tp_eq in Q. cbn [p_trunc p_year p_hour p_zone p_month p_dom p_doy p_week p_dow p_min p_sec] in Q.
+  unfold tod_h in Q. destruct (date_stage md d' Vd') as (_ & _ & _ & PD). rewrite PD, ptp_tod_fields in Q.
+  inversion Q; subst q. split; [|reflexivity]. unfold instant. cbn [tdate ttod tzone]. rewrite DN, (tod_secs_eq _ _ TE). reflexivity.
+Qed.
+
+(* ---------- the custom-format round trip ---------- *)
+Theorem custom_roundtrip : forall md ned ext xp k p r,
+  In (ned, ext, xp, k) cust_cases -> valid_tp md p = true -> hms_whole (ttod p) = true ->
+  cust_point md k p (mkZone 0 0) = Some r -> year_ok (if xp then ned else 0) (date_year (tdate r)) ->
+  exists s p' q,
+    do_dump md ned p (cust_fmt ext xp k) = DOk s /\
+    parse_text md (default_cfg (pcfg_ned ned)) s false = POk p' /\
+    ptp_to_tp p' = Some q /\ tzone q = mkZone 0 0 /\ tp_cmp md q p = Some Eq.
+Proof.
+  intros md ned ext xp k p r C V W CP Y.
+  destruct (cust_cases_facts ned ext xp k C) as (Nn & Kk & Xn).
+  destruct (cust_point_spec md k p (mkZone 0 0) V eq_refl) as (r' & CP' & Vr & Ir & Zr & Tr & Rr).
+  rewrite CP in CP'. inversion CP'; subst r'. clear CP'.
+  pose proof (hms_whole_instant md r p Vr V Tr Ir W) as Wr.
+  destruct (valid_tp_parts md r Vr) as (Vdr & Vtr & _).
+  destruct (tgt_spec md k (tdate r) Vdr Kk Rr) as (d' & TG & Vd' & DN & YE).
+  destruct (cust_case ned ext xp k C) as (_ & _ & _ & _ & _ & _ & OK & K1 & K2).
+  assert (Y' : year_ok (if xp then ned else 0) (date_year d')) by (rewrite YE; exact Y).
+  destruct (custom_parse md ned ext xp k F_Z_EXT [] (Some (0, Some 0)) r d' C Vr Wr TG Vd' DN Y' OK K1 K2 eq_refl eq_refl eq_refl)
+    as (p' & q & P & Q & VQ & IQ & ZQ).
+  { rewrite Zr. reflexivity. }
+  exists (render_toks (f_parse (CF (pcfg_ned ned) ext xp k)) (date_env (if xp then ned else 0) d') ++ "T" ++
+          render_toks (f_parse (CT ext)) (time_env (ttod r)) ++ "Z"), p', q.
+  split.
+  - rewrite (do_dump_custom md ned ext xp k p C), CP.
+    rewrite (proj2 (year_bad_ok ned xp _ Xn) Y). unfold cust_tmpl.
+    destruct r as [d t z]. cbn [tdate ttod tzone] in *.
+    destruct t as [h m s| |]; try discriminate Wr.
+    rewrite render_app, (render_cdate md ned ext xp k d d' _ z C TG YE Y), render_app. cbn [render].
+    rewrite render_app, render_ctime. cbn [render]. reflexivity.
+  - split; [exact P|]. split; [exact Q|]. split; [rewrite ZQ; exact Zr|].
+    rewrite (tp_cmp_spec md q p VQ V). f_equal. rewrite <- Qeq_alt. rewrite IQ. exact Ir.
+Qed.
+
+Theorem custom_roundtrip_ok : forall md ned ext xp k p s,
+  In (ned, ext, xp, k) cust_cases -> valid_tp md p = true -> hms_whole (ttod p) = true ->
+  do_dump md ned p (cust_fmt ext xp k) = DOk s ->
+  exists p' q,
+    parse_text md (default_cfg (pcfg_ned ned)) s false = POk p' /\
+    ptp_to_tp p' = Some q /\ tzone q = mkZone 0 0 /\ tp_cmp md q p = Some Eq.
+Proof.
+  intros md ned ext xp k p s C V W D.
+  destruct (cust_cases_facts ned ext xp k C) as (_ & _ & Xn).
+  pose proof D as D'. rewrite (do_dump_custom md ned ext xp k p C) in D'.
+  destruct (cust_point md k p (mkZone 0 0)) as [r|] eqn:CP; [|discriminate].
+  destruct (year_bad ned xp (date_year (tdate r))) eqn:B; [discriminate|].
+  apply (year_bad_ok ned xp _ Xn) in B.
+  destruct (custom_roundtrip md ned ext xp k p r C V W CP B) as (s' & p' & q & D2 & P & Q & ZQ & E).
+  rewrite D in D2. inversion D2; subst s'. exists p', q. auto.
+Qed.
+
+(* outside the year bounds the dumper refuses; it never fails otherwise *)
+Theorem custom_bounds : forall md ned ext xp k p, In (ned, ext, xp, k) cust_cases -> valid_tp md p = true ->
+  exists r, cust_point md k p (mkZone 0 0) = Some r /\ valid_tp md r = true /\ (instant md r == instant md p)%Q /\
+            tzone r = mkZone 0 0 /\
+            (~ year_ok (if xp then ned else 0) (date_year (tdate r)) -> do_dump md ned p (cust_fmt ext xp k) = DBounds).
+Proof.
+  intros md ned ext xp k p C V.
+  destruct (cust_cases_facts ned ext xp k C) as (_ & _ & Xn).
+  destruct (cust_point_spec md k p (mkZone 0 0) V eq_refl) as (r & CP & Vr & Ir & Zr & _).
+  exists r. repeat split; try assumption. intros NY.
+  rewrite (do_dump_custom md ned ext xp k p C), CP.
+  destruct (year_bad ned xp (date_year (tdate r))) eqn:B; [reflexivity|].
+  apply (year_bad_ok ned xp _ Xn) in B. contradiction.
+Qed.
+
+(* ------------------------------------------------------------------ *)
+(* 6. custom formats with a literal numeric zone                       *)
+(* ------------------------------------------------------------------ *)
+Definition F_ZHM_BASIC : form := Eval vm_compute in pick "basic" "+hhmm" ZONE_FORMS.
+Definition F_ZH_BASIC : form := Eval vm_compute in pick "basic" "+hh" ZONE_FORMS.
+Definition F_ZH_EXT : form := Eval vm_compute in pick "extended" "+hh" ZONE_FORMS.
+(* zk: the literal has minutes *)
+Definition CZ (ext zk : bool) : form :=
+  if zk then (if ext then F_ZHM_EXT else F_ZHM_BASIC) else (if ext then F_ZH_EXT else F_ZH_BASIC).
+Definition sgn (neg : bool) (v : Z) : Z := if neg then - v else v.
+Definition zlit_env (neg : bool) (a b : Z) : env :=
+  [("time_zone_sign", if neg then "-" else "+"); ("time_zone_hour", pad_num 2 a); ("time_zone_minute", pad_num 2 b)].
+Definition zlit (ext zk neg : bool) (a b : Z) : string := render_toks (f_parse (CZ ext zk)) (zlit_env neg a b).
+Definition zlit_zone (zk neg : bool) (a b : Z) : zone := mkZone (sgn neg a) (if zk then sgn neg b else 0).
+Definition str_tail (s : string) : string := match s with String _ r => r | EmptyString => "" end.
+Definition zlit_tmpl (ext zk neg : bool) (a b : Z) : list dtok :=
+  if neg then [DLit (zlit ext zk neg a b)] else [DStr "time_zone_sign"; DLit (str_tail (zlit ext zk neg a b))].
+Definition zlit_props (neg : bool) : list string := if neg then [] else ["time_zone_sign"].
+
+Lemma zlit_text : forall ext zk neg a b,
+  zlit ext zk neg a b = (if neg then "-" else "+") ++ pad_num 2 a ++
+                        (if zk then (if ext then ":" else "") ++ pad_num 2 b else "").
+Proof.
+  intros. unfold zlit, zlit_env. destruct ext, zk;
+    cbn [CZ F_ZHM_EXT F_ZHM_BASIC F_ZH_BASIC F_ZH_EXT f_parse render_toks fld lookup_env String.eqb Ascii.eqb Bool.eqb];
+    rewrite ?sapp_nil_r; reflexivity.
+Qed.
+
+Definition zlit_ok (ext zk neg : bool) (a b : Z) : bool :=
+  let tz := f_expr (CT ext) ++ zlit ext zk neg a b in
+  negb (contains_char "T" tz) && negb (contains_char "%" tz) &&
+  match expr_tail TIME_FORMS ZONE_FORMS zone_of_text tz [] [] with
+  | inl (Some (tmpl, props, Some (h, m))) =>
+    dtoks_eqb tmpl ([DLit "T"] ++ f_dump (CT ext) ++ zlit_tmpl ext zk neg a b) &&
+    strs_eqb props (f_props (CT ext) ++ zlit_props neg) &&
+    (h =? zh (zlit_zone zk neg a b)) && (m =? zm (zlit_zone zk neg a b))
+  | _ => false
+  end.
+Theorem zlit_tables :
+  forallb (fun ext => forallb (fun zk => forallb (fun neg =>
+    forallb (fun a => forallb (fun b => zlit_ok ext zk neg (Z.of_nat a) (Z.of_nat b)) (if zk then seq 0 60 else [O])) (seq 0 100))
+    bools) bools) bools = true.
+Proof. vm_cast_no_check (@eq_refl bool true). Qed.
+
+Lemma in_bools : forall b, In b bools.
+Proof. intros []; cbn; auto. Qed.
+Lemma zlit_case : forall ext zk neg a b, 0 <= a <= 99 -> 0 <= b <= 59 -> zlit_ok ext zk neg a b = true.
+Proof.
+  intros ext zk neg a b A B. pose proof zlit_tables as T.
+  rewrite forallb_forall in T. specialize (T ext (in_bools ext)).
+  rewrite forallb_forall in T. specialize (T zk (in_bools zk)).
+  rewrite forallb_forall in T. specialize (T neg (in_bools neg)).
+  rewrite forallb_forall in T. specialize (T (Z.to_nat a) ltac:(apply in_seq; lia)). rewrite forallb_forall in T.
+  destruct zk.
+  - specialize (T (Z.to_nat b) ltac:(apply in_seq; lia)). rewrite !Z2Nat.id in T by lia. exact T.
+  - specialize (T O ltac:(left; reflexivity)). rewrite Z2Nat.id in T by lia.
+    destruct ext; exact T.
+Qed.
+
+(* the date/time templates are put in front of what the time/zone tail alone gives *)
+Lemma expr_tail_front : forall tfs zfs zot tz dt dp,
+  expr_tail tfs zfs zot tz dt dp =
+  match expr_tail tfs zfs zot tz [] [] with
+  | inl (Some (t, p, cz)) => inl (Some (dt ++ t, dp ++ p, cz))%list
+  | x => x
+  end.
+Proof.
+  intros. unfold expr_tail. cbv zeta.
+  destruct (match ends_with_Z tz with Some t => _ | None => _ end) as [[[t z] [cz|]]|]; try reflexivity.
+  destruct (find_expr tfs t); try reflexivity.
+  destruct (if String.eqb z "" then _ else _) as [[zt zp]|]; reflexivity.
+Qed.
+
+Definition cust_zcase_ok (c : Z * bool * bool * Z) : bool :=
+  let '(ned, ext, xp, k) := c in
+  let nedc := pcfg_ned ned in let fd := CF nedc ext xp k in
+  negb (contains_char "T" (cdate_expr ext xp k)) && negb (contains_char "%" (cdate_expr ext xp k)) &&
+  match date_template (date_forms_of ned) (cdate_expr ext xp k) with
+  | Some (dt, dp) => dtoks_eqb dt (f_dump fd) && strs_eqb dp (f_props fd)
+  | None => false end &&
+  forallb (fun zk => triple_ok (date_forms_of nedc) TIME_FORMS ZONE_FORMS (default_cfg nedc) fd (CT ext) (Some (CZ ext zk)) &&
+                     num_keys_ok ZONE_KEYS (f_parse (CZ ext zk))) bools.
+Theorem cust_ztables : forallb cust_zcase_ok cust_cases = true.
+Proof. vm_compute. reflexivity. Qed.
+
+Lemma cust_zcase : forall ned ext xp k zk, In (ned, ext, xp, k) cust_cases ->
+  let nedc := pcfg_ned ned in let fd := CF nedc ext xp k in
+  contains_char "T" (cdate_expr ext xp k) = false /\ contains_char "%" (cdate_expr ext xp k) = false /\
+  date_template (date_forms_of ned) (cdate_expr ext xp k) = Some (f_dump fd, f_props fd) /\
+  triple_ok (date_forms_of nedc) TIME_FORMS ZONE_FORMS (default_cfg nedc) fd (CT ext) (Some (CZ ext zk)) = true /\
+  num_keys_ok ZONE_KEYS (f_parse (CZ ext zk)) = true.
+Proof.
+  intros ned ext xp k zk C nedc fd. pose proof cust_ztables as T. rewrite forallb_forall in T.
+  specialize (T _ C). unfold cust_zcase_ok in T. cbv beta iota zeta in T. fold nedc in T. fold fd in T.
+  repeat match goal with X : _ && _ = true |- _ => apply andb_true_iff in X; destruct X end.
+  match goal with X : forallb _ bools = true |- _ => rewrite forallb_forall in X; specialize (X zk (in_bools zk));
+    apply andb_true_iff in X; destruct X end.
+  destruct (date_template _ _) as [[dt dp]|]; [|discriminate].
+  repeat match goal with X : _ && _ = true |- _ => apply andb_true_iff in X; destruct X end.
+  match goal with X : dtoks_eqb _ _ = true |- _ => apply dtoks_eqb_eq in X; subst dt end.
+  match goal with X : strs_eqb _ _ = true |- _ => apply strs_eqb_eq in X; subst dp end.
+  repeat match goal with X : negb _ = true |- _ => apply negb_true_iff in X end.
+  repeat split; assumption.
+Qed.
+
+Lemma mem_zlit_props : forall x a b neg, String.eqb x "time_zone_sign" = false ->
+  mem x (a ++ b ++ zlit_props neg)%list = mem x (a ++ b)%list.
+Proof.
+  intros x a b neg H. destruct neg; cbn [zlit_props]; [rewrite List.app_nil_r; reflexivity|].
+  unfold mem. rewrite List.app_assoc, existsb_app. cbn [existsb]. rewrite H, !orb_false_r. reflexivity.
+Qed.
+
+Definition cust_zfmt (ext xp : bool) (k : Z) (zk neg : bool) (a b : Z) : string :=
+  cdate_expr ext xp k ++ "T" ++ f_expr (CT ext) ++ zlit ext zk neg a b.
+Definition cust_ztmpl (ned : Z) (ext xp : bool) (k : Z) (zk neg : bool) (a b : Z) : list dtok :=
+  (f_dump (CF (pcfg_ned ned) ext xp k) ++ [DLit "T"] ++ f_dump (CT ext) ++ zlit_tmpl ext zk neg a b)%list.
+
+Theorem do_dump_zlit : forall md ned ext xp k zk neg a b p, In (ned, ext, xp, k) cust_cases ->
+  0 <= a <= 99 -> 0 <= b <= 59 ->
+  do_dump md ned p (cust_zfmt ext xp k zk neg a b) =
+  match cust_point md k p (zlit_zone zk neg a b) with
+  | None => DErr
+  | Some r => if year_bad ned xp (date_year (tdate r)) then DBounds
+              else match render md r (cust_ztmpl ned ext xp k zk neg a b) with Some s => DOk s | None => DErr end
+  end.
+Proof.
+  intros md ned ext xp k zk neg a b p C A B.
+  destruct (cust_case ned ext xp k C) as (_ & _ & F1 & F2 & F3 & F4 & _).
+  destruct (cust_zcase ned ext xp k zk C) as (DT & DP & TM & _).
+  pose proof (zlit_case ext zk neg a b A B) as Z. unfold zlit_ok in Z. cbv zeta in Z.
+  set (tz := f_expr (CT ext) ++ zlit ext zk neg a b) in *.
+  apply andb_true_iff in Z. destruct Z as [Z ET]. apply andb_true_iff in Z. destruct Z as [ZT ZP].
+  apply negb_true_iff in ZT. apply negb_true_iff in ZP.
+  unfold cust_zfmt. fold tz. change ("T" ++ tz) with (String "T" tz).
+  assert (NP : contains_char "%" (cdate_expr ext xp k ++ String "T" tz) = false).
+  { rewrite contains_char_app, DP. cbn [contains_char]. rewrite ZP. reflexivity. }
+  unfold do_dump. rewrite NP. unfold dump. rewrite NP.
+  rewrite (expression_of_two _ _ _ _ _ _ _ _ DT ZT TM), expr_tail_front.
+  destruct (expr_tail TIME_FORMS ZONE_FORMS zone_of_text tz [] []) as [[[[tmpl props] [[h m]|]]|]|e]; try discriminate.
+  repeat match goal with X : _ && _ = true |- _ => apply andb_true_iff in X; destruct X end.
+  match goal with X : dtoks_eqb _ _ = true |- _ => apply dtoks_eqb_eq in X; subst tmpl end.
+  match goal with X : strs_eqb _ _ = true |- _ => apply strs_eqb_eq in X; subst props end.
+  repeat match goal with X : (_ =? _) = true |- _ => apply Z.eqb_eq in X end. subst h m.
+  rewrite (dump_with_cust ned md p _ _ _ _ k xp); [reflexivity| | | |];
+    rewrite !mem_zlit_props by reflexivity; assumption.
+Qed.
+
+(* the literal zone: printed as written, read back as the zone it denotes *)
+Lemma render_zlit : forall md ext zk neg a b r, 0 <= a -> 0 <= b -> tzone r = zlit_zone zk neg a b ->
+  render md r (zlit_tmpl ext zk neg a b) = Some (zlit ext zk neg a b).
+Proof.
+  intros md ext zk neg a b [d t z] A B Z. cbn [tzone] in Z. subst z. unfold zlit_tmpl. destruct neg.
+  - cbn [render]. rewrite sapp_nil_r. reflexivity.
+  - cbn [render]. rewrite pv_zsign. unfold zone_sign, zlit_zone, sgn. cbn [zh zm].
+    assert (E : (a <? 0) || ((if zk then b else 0) <? 0) = false) by (destruct zk; lia). rewrite E.
+    rewrite sapp_nil_r, zlit_text. reflexivity.
+Qed.
+
+Ltac czone_cbn := cbn [CZ F_ZHM_EXT F_ZHM_BASIC F_ZH_BASIC F_ZH_EXT zlit_env
+                       wf_assign render_toks bindings f_parse f_expr fld lookup_env has_key String.eqb Ascii.eqb Bool.eqb
+                       nz nq ndec option_map od negb orb andb].
+Lemma zlit_vals : forall cfg ext zk neg a b, 0 <= a <= 99 -> 0 <= b <= 59 ->
+  wf_assign (f_parse (CZ ext zk)) (zlit_env neg a b) = true /\
+  exists zn, zone_num cfg (bindings (f_parse (CZ ext zk)) (zlit_env neg a b)) = POk zn /\
+             zone_stage zn = POk (Some (zlit_zone zk neg a b)) /\ valid_zone (zlit_zone zk neg a b) = true.
+Proof.
+  intros cfg ext zk neg a b A B.
+  assert (RA : 0 <= a < 10 ^ Z.of_nat 2) by (change (10 ^ Z.of_nat 2) with 100; lia).
+  assert (RB : 0 <= b < 10 ^ Z.of_nat 2) by (change (10 ^ Z.of_nat 2) with 100; lia).
+  destruct (pad_num_w 2 a ltac:(lia) RA) as [D1 N1]. destruct (pad_num_w 2 b ltac:(lia) RB) as [D2 N2].
+  assert (SG : is_sign (if neg then "-" else "+") = true) by (destruct neg; reflexivity).
+  assert (VZ : valid_zone (zlit_zone zk neg a b) = true).
+  { unfold valid_zone, zlit_zone, sgn. cbn [zh zm]. destruct zk, neg; repeat split_if; lia. }
+  split.
+  - destruct ext, zk; czone_cbn; rewrite ?SG, ?D1, ?D2; reflexivity.
+  - exists (Some (sgn neg a, if zk then Some (sgn neg b) else None)). split; [|split; [|exact VZ]].
+    + unfold zone_num, sgn. destruct ext, zk, neg; czone_cbn; rewrite ?N1, ?N2; reflexivity.
+    + unfold zone_stage, zlit_zone. cbv zeta. unfold valid_zone, zlit_zone in VZ. cbn [zh zm] in VZ.
+      set (x := sgn neg a) in *.
+      set (y := match (if zk then Some (sgn neg b) else None) with Some v => v | None => 0 end).
+      assert (Y : y = (if zk then sgn neg b else 0)) by (unfold y; destruct zk; reflexivity).
+      rewrite <- Y in *. clearbody x y.
+      assert (E1 : negb ((-99 <=? x) && (x <=? 99)) = false) by lia. rewrite E1.
+      assert (E2 : negb (((if 0 <? x then 0 else -59) <=? y) && (y <=? (if x <? 0 then 0 else 59))) = false).
+      { destruct (0 <? x) eqn:P; destruct (x <? 0) eqn:Q; lia. }
+      rewrite E2. reflexivity.
+Qed.
+
+Theorem custom_zone_roundtrip : forall md ned ext xp k zk neg a b p r,
+  In (ned, ext, xp, k) cust_cases -> 0 <= a <= 99 -> 0 <= b <= 59 ->
+  valid_tp md p = true -> hms_whole (ttod p) = true ->
+  cust_point md k p (zlit_zone zk neg a b) = Some r -> year_ok (if xp then ned else 0) (date_year (tdate r)) ->
+  exists s p' q,
+    do_dump md ned p (cust_zfmt ext xp k zk neg a b) = DOk s /\
+    parse_text md (default_cfg (pcfg_ned ned)) s false = POk p' /\
+    ptp_to_tp p' = Some q /\ tzone q = zlit_zone zk neg a b /\ tp_cmp md q p = Some Eq.
+Proof.
+  intros md ned ext xp k zk neg a b p r C A B V W CP Y.
+  destruct (cust_cases_facts ned ext xp k C) as (Nn & Kk & Xn).
+  destruct (zlit_vals (default_cfg (pcfg_ned ned)) ext zk neg a b A B) as (Wz & zn & ZN & ZS & VZ).
+  destruct (cust_point_spec md k p _ V VZ) as (r' & CP' & Vr & Ir & Zr & Tr & Rr).
+  rewrite CP in CP'. inversion CP'; subst r'. clear CP'.
+  pose proof (hms_whole_instant md r p Vr V Tr Ir W) as Wr.
+  destruct (valid_tp_parts md r Vr) as (Vdr & Vtr & _).
+  destruct (tgt_spec md k (tdate r) Vdr Kk Rr) as (d' & TG & Vd' & DN & YE).
+  destruct (cust_case ned ext xp k C) as (_ & _ & _ & _ & _ & _ & _ & K1 & K2).
+  destruct (cust_zcase ned ext xp k zk C) as (_ & _ & _ & OK & K3).
+  assert (Y' : year_ok (if xp then ned else 0) (date_year d')) by (rewrite YE; exact Y).
+  rewrite <- Zr in ZS.
+  destruct (custom_parse md ned ext xp k (CZ ext zk) (zlit_env neg a b) zn r d' C Vr Wr TG Vd' DN Y' OK K1 K2 K3 Wz ZN ZS)
+    as (p' & q & P & Q & VQ & IQ & ZQ).
+  exists (render_toks (f_parse (CF (pcfg_ned ned) ext xp k)) (date_env (if xp then ned else 0) d') ++ "T" ++
+          render_toks (f_parse (CT ext)) (time_env (ttod r)) ++ zlit ext zk neg a b), p', q.
+  split.
+  - rewrite (do_dump_zlit md ned ext xp k zk neg a b p C A B), CP.
+    rewrite (proj2 (year_bad_ok ned xp _ Xn) Y). unfold cust_ztmpl.
+    rewrite render_app, render_app. cbn [render]. rewrite render_app.
+    rewrite (render_zlit md ext zk neg a b r) by (try lia; exact Zr).
+    destruct r as [d t z]. cbn [tdate ttod tzone] in *.
+    destruct t as [h m s| |]; try discriminate Wr.
+    rewrite (render_cdate md ned ext xp k d d' _ z C TG YE Y), render_ctime. reflexivity.
+  - split; [exact P|]. split; [exact Q|]. split; [rewrite ZQ; exact Zr|].
+    rewrite (tp_cmp_spec md q p VQ V). f_equal. rewrite <- Qeq_alt. rewrite IQ. exact Ir.
+Qed.
+
+(* ------------------------------------------------------------------ *)
+(* 7. custom formats printing the point's own zone: +hhmm / +hh:mm     *)
+(* ------------------------------------------------------------------ *)
+Definition cust_pfmt (ext xp : bool) (k : Z) : string :=
+  cdate_expr ext xp k ++ "T" ++ f_expr (CT ext) ++ f_expr (CZ ext true).
+Definition cust_ptmpl (ned : Z) (ext xp : bool) (k : Z) : list dtok :=
+  (f_dump (CF (pcfg_ned ned) ext xp k) ++ [DLit "T"] ++ f_dump (CT ext) ++ f_dump (CZ ext true))%list.
+Definition cust_pcase_ok (c : Z * bool * bool * Z) : bool :=
+  let '(ned, ext, xp, k) := c in
+  let props := (f_props (CF (pcfg_ned ned) ext xp k) ++ f_props (CT ext) ++ f_props (CZ ext true))%list in
+  negb (contains_char "%" (cust_pfmt ext xp k)) &&
+  match expression_of (date_forms_of ned) TIME_FORMS ZONE_FORMS zone_of_text (cust_pfmt ext xp k) with
+  | inl (Some (tmpl, props', None)) => dtoks_eqb tmpl (cust_ptmpl ned ext xp k) && strs_eqb props' props
+  | _ => false end &&
+  Bool.eqb (mem "week_of_year" props || mem "day_of_week" props) (k =? 2) &&
+  Bool.eqb (mem "month_of_year" props || mem "day_of_month" props || mem "day_of_year" props) (negb (k =? 2)) &&
+  mem "century" props && Bool.eqb (mem "expanded_year_digits" props) xp.
+Theorem cust_ptables : forallb cust_pcase_ok cust_cases = true.
+Proof. vm_compute. reflexivity. Qed.
+
+Lemma dump_with_own : forall ned md p tmpl props k xp,
+  mem "week_of_year" props || mem "day_of_week" props = (k =? 2) ->
+  mem "month_of_year" props || mem "day_of_month" props || mem "day_of_year" props = negb (k =? 2) ->
+  mem "century" props = true -> mem "expanded_year_digits" props = xp ->
+  dump_with ned md p tmpl props None =
+  match cust_date md k (tdate p) with
+  | None => DErr
+  | Some d => if year_bad ned xp (date_year d) then DBounds
+              else match render md (with_date p d) tmpl with Some s => DOk s | None => DErr end
+  end.
+Proof.
+  intros ned md p tmpl props k xp F1 F2 F3 F4.
+  rewrite (dump_with_flags ned md p tmpl props _ _ _ _ _ F1 F2 F3 F4). cbv zeta.
+  unfold cust_date, year_bad. destruct p as [d t z]. cbn [tdate].
+  destruct (k =? 2); cbn [negb andb].
+  - destruct (to_week_date md d); reflexivity.
+  - destruct d; cbn [andb]; try reflexivity. destruct (to_calendar_date md _); reflexivity.
+Qed.
+
+Theorem do_dump_own : forall md ned ext xp k p, In (ned, ext, xp, k) cust_cases ->
+  do_dump md ned p (cust_pfmt ext xp k) =
+  match cust_date md k (tdate p) with
+  | None => DErr
+  | Some d => if year_bad ned xp (date_year d) then DBounds
+              else match render md (with_date p d) (cust_ptmpl ned ext xp k) with Some s => DOk s | None => DErr end
+  end.
+Proof.
+  intros md ned ext xp k p C. pose proof cust_ptables as T. rewrite forallb_forall in T.
+  specialize (T _ C). unfold cust_pcase_ok in T. cbv beta iota zeta in T.
+  repeat match goal with X : _ && _ = true |- _ => apply andb_true_iff in X; destruct X end.
+  destruct (expression_of _ _ _ _ _) as [[[[tmpl props'] [|]]|]|e] eqn:EX; try discriminate.
+  repeat match goal with X : _ && _ = true |- _ => apply andb_true_iff in X; destruct X end.
+  repeat match goal with X : Bool.eqb _ _ = true |- _ => apply eqb_prop in X end.
+  match goal with X : dtoks_eqb _ _ = true |- _ => apply dtoks_eqb_eq in X; subst tmpl end.
+  match goal with X : strs_eqb _ _ = true |- _ => apply strs_eqb_eq in X; subst props' end.
+  match goal with X : negb _ = true |- _ => apply negb_true_iff in X; rename X into NP end.
+  unfold do_dump. rewrite NP. unfold dump. rewrite NP, EX.
+  apply (dump_with_own ned md p _ _ k xp); assumption.
+Qed.
+
+Definition zneg (z : zone) : bool := (zh z <? 0) || (zm z <? 0).
+Lemma render_own_zone : forall md ext d t z,
+  render md (mkTp d t z) (f_dump (CZ ext true)) = Some (zlit ext true (zneg z) (Z.abs (zh z)) (Z.abs (zm z))).
+Proof.
+  intros md ext d t z. rewrite zlit_text.
+  destruct ext; cbn [CZ F_ZHM_EXT F_ZHM_BASIC f_dump render]; rewrite pv_zsign, pv_zh, pv_zm;
+    unfold zone_sign, zneg; rewrite ?sapp_nil_r, ?sapp_assoc; reflexivity.
+Qed.
+Lemma zone_own : forall z, valid_zone z = true -> zlit_zone true (zneg z) (Z.abs (zh z)) (Z.abs (zm z)) = z.
+Proof.
+  intros [a b] V. unfold valid_zone in V. unfold zlit_zone, zneg, sgn. cbn [zh zm] in *.
+  destruct ((a <? 0) || (b <? 0)) eqn:N; f_equal; repeat split_if; lia.
+Qed.
+
+Theorem custom_own_zone_roundtrip : forall md ned ext xp k p d,
+  In (ned, ext, xp, k) cust_cases -> valid_tp md p = true -> hms_whole (ttod p) = true ->
+  cust_date md k (tdate p) = Some d -> year_ok (if xp then ned else 0) (date_year d) ->
+  exists s p' q,
+    do_dump md ned p (cust_pfmt ext xp k) = DOk s /\
+    parse_text md (default_cfg (pcfg_ned ned)) s false = POk p' /\
+    ptp_to_tp p' = Some q /\ tzone q = tzone p /\ tp_cmp md q p = Some Eq.
+Proof.
+  intros md ned ext xp k p d C V W CD Y.
+  destruct (cust_cases_facts ned ext xp k C) as (Nn & Kk & Xn).
+  destruct (valid_tp_parts md p V) as (Vd & Vt & Vz).
+  destruct (cust_date_spec md k (tdate p) Vd) as (d0 & CD' & Vd0 & DN0 & Rr).
+  rewrite CD in CD'. inversion CD'; subst d0. clear CD'.
+  set (r := with_date p d).
+  assert (Vr : valid_tp md r = true).
+  { unfold valid_tp, r, with_date. cbn [tdate ttod tzone]. rewrite Vd0, Vt, Vz. reflexivity. }
+  assert (Ir : (instant md r == instant md p)%Q) by (apply instant_with_date; exact DN0).
+  destruct (tgt_spec md k d Vd0 Kk Rr) as (d' & TG & Vd' & DN & YE).
+  destruct (cust_case ned ext xp k C) as (_ & _ & _ & _ & _ & _ & _ & K1 & K2).
+  destruct (cust_zcase ned ext xp k true C) as (_ & _ & _ & OK & K3).
+  assert (Y' : year_ok (if xp then ned else 0) (date_year d')) by (rewrite YE; exact Y).
+  assert (A : 0 <= Z.abs (zh (tzone p)) <= 99 /\ 0 <= Z.abs (zm (tzone p)) <= 59) by (unfold valid_zone in Vz; lia).
+  destruct A as [A B].
+  destruct (zlit_vals (default_cfg (pcfg_ned ned)) ext true (zneg (tzone p)) _ _ A B) as (Wz & zn & ZN & ZS & _).
+  rewrite (zone_own _ Vz) in ZS.
+  destruct (custom_parse md ned ext xp k (CZ ext true) _ zn r d' C Vr W TG Vd' DN Y' OK K1 K2 K3 Wz ZN ZS)
+    as (p' & q & P & Q & VQ & IQ & ZQ).
+  exists (render_toks (f_parse (CF (pcfg_ned ned) ext xp k)) (date_env (if xp then ned else 0) d') ++ "T" ++
+          render_toks (f_parse (CT ext)) (time_env (ttod p)) ++
+          zlit ext true (zneg (tzone p)) (Z.abs (zh (tzone p))) (Z.abs (zm (tzone p)))), p', q.
+  split.
+  - rewrite (do_dump_own md ned ext xp k p C), CD.
+    rewrite (proj2 (year_bad_ok ned xp _ Xn) Y). unfold cust_ptmpl. fold r.
+    subst r. destruct p as [d0 t z]. unfold with_date in *. cbn [tdate ttod tzone] in *.
+    destruct t as [h m s| |]; try discriminate W.
+    rewrite render_app, (render_cdate md ned ext xp k d d' _ z C TG YE Y), render_app. cbn [render].
+    rewrite render_app, render_ctime, render_own_zone. reflexivity.
+  - split; [exact P|]. split; [exact Q|]. split; [rewrite ZQ; reflexivity|].
+    rewrite (tp_cmp_spec md q p VQ V). f_equal. rewrite <- Qeq_alt. rewrite IQ. exact Ir.
+Qed.
+
+(* ------------------------------------------------------------------ *)
+(* 8. the statements of Props/C08.v, with explicit hypotheses          *)
+(* ------------------------------------------------------------------ *)
+Definition ctime_expr (ext : bool) : string := if ext then "hh:mm:ss" else "hhmmss".
+Definition czone_expr (ext : bool) : string := if ext then "+hh:mm" else "+hhmm".
+Lemma ctime_expr_eq : forall ext, f_expr (CT ext) = ctime_expr ext.
+Proof. intros []; reflexivity. Qed.
+Lemma czone_expr_eq : forall ext, f_expr (CZ ext true) = czone_expr ext.
+Proof. intros []; reflexivity. Qed.
+Lemma cust_cases_intro : forall ned ext xp k,
+  In ned [0; 2; 3] -> In k [0; 1; 2] -> (xp = true -> ned <> 0) -> In (ned, ext, xp, k) cust_cases.
+Proof.
+  intros ned ext xp k [<-|[<-|[<-|[]]]] [<-|[<-|[<-|[]]]] X; destruct ext, xp;
+    try (exfalso; apply (X eq_refl); reflexivity); cbn; repeat (first [left; reflexivity | right]).
+Qed.
+
+Theorem custom_utc : forall md ned ext xp k p r,
+  In ned [0; 2; 3] -> In k [0; 1; 2] -> (xp = true -> ned <> 0) ->
+  valid_tp md p = true -> hms_whole (ttod p) = true ->
+  cust_point md k p (mkZone 0 0) = Some r -> year_ok (if xp then ned else 0) (date_year (tdate r)) ->
+  exists s p' q,
+    do_dump md ned p (cdate_expr ext xp k ++ "T" ++ ctime_expr ext ++ "Z") = DOk s /\
+    parse_text md (default_cfg (pcfg_ned ned)) s false = POk p' /\
+    ptp_to_tp p' = Some q /\ tzone q = mkZone 0 0 /\ tp_cmp md q p = Some Eq.
+Proof.
+  intros md ned ext xp k p r N K X. rewrite <- ctime_expr_eq.
+  apply custom_roundtrip. apply cust_cases_intro; assumption.
+Qed.
+Theorem custom_utc_dumped : forall md ned ext xp k p s,
+  In ned [0; 2; 3] -> In k [0; 1; 2] -> (xp = true -> ned <> 0) ->
+  valid_tp md p = true -> hms_whole (ttod p) = true ->
+  do_dump md ned p (cdate_expr ext xp k ++ "T" ++ ctime_expr ext ++ "Z") = DOk s ->
+  exists p' q,
+    parse_text md (default_cfg (pcfg_ned ned)) s false = POk p' /\
+    ptp_to_tp p' = Some q /\ tzone q = mkZone 0 0 /\ tp_cmp md q p = Some Eq.
+Proof.
+  intros md ned ext xp k p s N K X. rewrite <- ctime_expr_eq.
+  apply custom_roundtrip_ok. apply cust_cases_intro; assumption.
+Qed.
+Theorem custom_utc_point : forall md ned ext xp k p,
+  In ned [0; 2; 3] -> In k [0; 1; 2] -> (xp = true -> ned <> 0) -> valid_tp md p = true ->
+  exists r, cust_point md k p (mkZone 0 0) = Some r /\ valid_tp md r = true /\ (instant md r == instant md p)%Q /\
+            tzone r = mkZone 0 0 /\
+            (~ year_ok (if xp then ned else 0) (date_year (tdate r)) ->
+             do_dump md ned p (cdate_expr ext xp k ++ "T" ++ ctime_expr ext ++ "Z") = DBounds).
+Proof.
+  intros md ned ext xp k p N K X. rewrite <- ctime_expr_eq.
+  apply custom_bounds. apply cust_cases_intro; assumption.
+Qed.
+Theorem custom_literal_zone : forall md ned ext xp k zk neg a b p r,
+  In ned [0; 2; 3] -> In k [0; 1; 2] -> (xp = true -> ned <> 0) -> 0 <= a <= 99 -> 0 <= b <= 59 ->
+  valid_tp md p = true -> hms_whole (ttod p) = true ->
+  cust_point md k p (zlit_zone zk neg a b) = Some r -> year_ok (if xp then ned else 0) (date_year (tdate r)) ->
+  exists s p' q,
+    do_dump md ned p (cdate_expr ext xp k ++ "T" ++ ctime_expr ext ++ zlit ext zk neg a b) = DOk s /\
+    parse_text md (default_cfg (pcfg_ned ned)) s false = POk p' /\
+    ptp_to_tp p' = Some q /\ tzone q = zlit_zone zk neg a b /\ tp_cmp md q p = Some Eq.
+Proof.
+  intros md ned ext xp k zk neg a b p r N K X. rewrite <- ctime_expr_eq.
+  apply custom_zone_roundtrip. apply cust_cases_intro; assumption.
+Qed.
+Theorem custom_own_zone : forall md ned ext xp k p d,
+  In ned [0; 2; 3] -> In k [0; 1; 2] -> (xp = true -> ned <> 0) ->
+  valid_tp md p = true -> hms_whole (ttod p) = true ->
+  cust_date md k (tdate p) = Some d -> year_ok (if xp then ned else 0) (date_year d) ->
+  exists s p' q,
+    do_dump md ned p (cdate_expr ext xp k ++ "T" ++ ctime_expr ext ++ czone_expr ext) = DOk s /\
+    parse_text md (default_cfg (pcfg_ned ned)) s false = POk p' /\
+    ptp_to_tp p' = Some q /\ tzone q = tzone p /\ tp_cmp md q p = Some Eq.
+Proof.
+  intros md ned ext xp k p d N K X. rewrite <- ctime_expr_eq, <- czone_expr_eq.
+  apply custom_own_zone_roundtrip. apply cust_cases_intro; assumption.
 Qed.
